@@ -23,18 +23,31 @@ pub fn descs() -> Vec<FnDesc> {
         FnDesc { name: "n", cacheable: false, kind: Kind::N, suspend: 0 },
         FnDesc { name: "v", cacheable: false, kind: Kind::V, suspend: 0 },
         FnDesc { name: "e", cacheable: false, kind: Kind::E, suspend: 0 },
+        FnDesc { name: "q", cacheable: false, kind: Kind::NaN, suspend: 0 },
+        FnDesc { name: "z", cacheable: false, kind: Kind::Zero, suspend: 0 },
+        FnDesc { name: "s", cacheable: false, kind: Kind::Empty, suspend: 0 },
+        // cacheable wrappers for the repeated-sub-expression family
+        FnDesc { name: "c", cacheable: true, kind: Kind::Tag, suspend: 0 },
+        FnDesc { name: "cv", cacheable: true, kind: Kind::V, suspend: 0 },
     ]
 }
 
 const LEAVES: [&str; 5] = ["t", "f", "n", "v", "e"];
+/// further left-operand values for the lazy operators: NaN, 0, "" (none of them may short-circuit anything)
+const EXTRA_LEAVES: [&str; 3] = ["q", "z", "s"];
 
 /// operator shapes: (name, arity)
-const OPS: [(&str, usize); 27] = [
+const OPS: [(&str, usize); 50] = [
     ("if", 3), ("and", 2), ("or", 2), ("eq", 2), ("neq", 2), // lazy
     // every strict binary node kind (an operand-order slip in one of them must not hide behind a representative)
     ("add", 2), ("sub", 2), ("mult", 2), ("div", 2), ("rem", 2), ("gt", 2), ("gte", 2), ("lt", 2), ("lte", 2), ("bitand", 2), ("bitor", 2), ("bitxor", 2), ("contains", 2),
     ("list", 2), ("map", 2),
     ("neg", 1), ("int", 1), ("field", 1), ("call", 1), ("some", 1), ("index", 1), ("not", 1),
+    // the remaining one-argument built-ins (an argument evaluated twice in one of them must not hide)
+    ("none", 1), ("float", 1), ("dec", 1), ("datetime", 1), ("duration", 1), ("uppercase", 1), ("lowercase", 1), ("trim", 1), ("floor", 1), ("round", 1), ("fract", 1),
+    ("year", 1), ("month", 1), ("week", 1), ("day", 1), ("hour", 1), ("minute", 1), ("second", 1),
+    // longer constructors and a call whose argument is a call
+    ("list3", 3), ("map3", 3), ("call-of-call", 1), ("index-of-list", 2), ("call-unknown", 1),
 ];
 
 fn mk(op: &str, mut cs: Vec<Expr>) -> Expr {
@@ -61,6 +74,36 @@ fn mk(op: &str, mut cs: Vec<Expr>) -> Expr {
         "bitor" => Expr::bitwise_or(next(), next()),
         "bitxor" => Expr::bitwise_xor(next(), next()),
         "not" => Expr::not(next()),
+        "none" => Expr::none(next()),
+        "float" => Expr::float(next()),
+        "dec" => Expr::dec(next()),
+        "datetime" => Expr::datetime(next()),
+        "duration" => Expr::duration(next()),
+        "uppercase" => Expr::uppercase(next()),
+        "lowercase" => Expr::lowercase(next()),
+        "trim" => Expr::trim(next()),
+        "floor" => Expr::floor(next()),
+        "round" => Expr::round(next()),
+        "fract" => Expr::fract(next()),
+        "year" => Expr::year(next()),
+        "month" => Expr::month(next()),
+        "week" => Expr::week(next()),
+        "day" => Expr::day(next()),
+        "hour" => Expr::hour(next()),
+        "minute" => Expr::minute(next()),
+        "second" => Expr::second(next()),
+        "list3" => Expr::Vec(vec![next(), next(), next()]),
+        "map3" => {
+            // inserted as m, z, a: evaluation must follow key order a, m, z
+            let mut m = BTreeMap::new();
+            m.insert("m".to_string(), next());
+            m.insert("z".to_string(), next());
+            m.insert("a".to_string(), next());
+            Expr::Map(m)
+        }
+        "call-of-call" => Expr::func("v", Expr::func("t", next())),
+        "call-unknown" => Expr::func("nosuch", next()),
+        "index-of-list" => Expr::index(Expr::Vec(vec![next(), next()]), Index::from(1usize)),
         "contains" => Expr::contains(next(), next()),
         "list" => Expr::Vec(vec![next(), next()]),
         "map" => {
@@ -254,8 +297,50 @@ fn run(ctx: &mut Ctx) {
             }
         }
     }
+    // the lazy operators with further kinds of left value (NaN, 0, ""), every kind of right operand
+    for op in ["if", "and", "or", "eq", "neq"] {
+        for l in EXTRA_LEAVES {
+            for r in LEAVES {
+                for r2 in LEAVES {
+                    if !ctx.mine() {
+                        continue;
+                    }
+                    let cs = if op == "if" { vec![ids.leaf(l), ids.leaf(r), ids.leaf(r2)] } else { vec![ids.leaf(l), ids.leaf(r)] };
+                    judge(ctx, &mk(op, cs), "lazy-operators-with-unusual-left-values");
+                    // and the same left value computed by an arithmetic sub-expression instead of a call
+                    if l == "q" && op != "if" {
+                        let nan = Expr::div(Expr::value(0.0), Expr::value(0.0));
+                        judge(ctx, &mk(op, vec![nan, ids.leaf(r)]), "lazy-operators-with-unusual-left-values");
+                    }
+                }
+            }
+        }
+    }
     // depth 2 with all children composite, and deeper random trees
     let mut rng = ctx.rng.clone();
+    // repeated, textually identical sub-expressions around cacheable functions: a cache hit must not
+    // change which operands get evaluated (only the cached function itself is skipped)
+    {
+        let n = ctx.tier.of(20_000, 200_000);
+        for _ in 0..n {
+            let mut small = Ids(0);
+            let mut atom = |rng: &mut crate::rng::Rng| -> Expr {
+                small.0 = rng.below(2) as i128; // ids from {1, 2}: repeats are the point
+                let inner = small.leaf(LEAVES[rng.below(4)]);
+                match rng.below(4) {
+                    0 => Expr::func("c", inner),
+                    1 => Expr::func("cv", inner),
+                    2 => Expr::func("c", Expr::func("cv", inner)),
+                    _ => inner,
+                }
+            };
+            let (op, ar) = OPS[rng.below(OPS.len())];
+            let cs: Vec<Expr> = (0..ar).map(|_| atom(&mut rng)).collect();
+            let e = mk(op, cs);
+            let e = if rng.chance(1, 2) { Expr::Vec(vec![e.clone(), atom(&mut rng), e]) } else { e };
+            judge(ctx, &e, "repeated-subexpressions-with-cacheable-calls");
+        }
+    }
     let n = ctx.tier.of(60_000, 600_000);
     for _ in 0..n {
         let (op, ar) = OPS[rng.below(OPS.len())];
@@ -285,7 +370,7 @@ fn finish(m: &Merged, tier: Tier) -> Finish {
     let mut f = Finish {
         rule: "every tree is one rule of a ruleset whose five functions t/f/n/v/e (true, false, None, identity, fails) are non-cacheable and log every invocation; every call site carries a unique integer id. The observed log must equal, call by call, the sequence predicted by lazy left-to-right evaluation (reference evaluator), and the reported outcome/error must be the predicted one. Non-trivial = predicted history of length >= 2; distinct by (root kind, predicted history)".into(),
         exhaustive: false,
-        exhaustive_part: "depth 1 (27 operator shapes — every binary node kind — x all 5^arity leaf assignments) and depth 2 with one composite child in every position are enumerated completely; depth 2 with all children composite and depth 3-4 are seeded random".into(),
+        exhaustive_part: "depth 1 (49 operator shapes — every binary node kind, every one-argument built-in, 2- and 3-entry lists and maps — x all 5^arity leaf assignments) and depth 2 with one composite child in every position are enumerated completely; depth 2 with all children composite and depth 3-4 are seeded random".into(),
         ..Default::default()
     };
     let need = [
